@@ -33,6 +33,7 @@ pub struct Gen<'a> {
     pub opts: GenOpts,
     /// tags of the faults injected into the payload being built
     pub faults: Vec<&'static str>,
+    bulk_spent: bool,
 }
 
 const WORDS: &[&str] = &[
@@ -148,7 +149,7 @@ pub fn flip_case(s: &str) -> String {
 
 impl<'a> Gen<'a> {
     pub fn new(defs: &'a Defs, rng: Rng, opts: GenOpts) -> Self {
-        Gen { defs, rng, opts, faults: vec![] }
+        Gen { defs, rng, opts, faults: vec![], bulk_spent: false }
     }
 
     fn fault(&mut self) -> bool {
@@ -391,7 +392,18 @@ impl<'a> Gen<'a> {
             }
             Ty::Boxed(t) => self.payload(t, depth),
             Ty::Vec(t) | Ty::Set(t) => {
-                let n = if deep { 0 } else { self.rng.below(self.opts.max_len + 1) };
+                let n = if deep {
+                    0
+                } else if self.opts.max_len > 100 && depth == 0 {
+                    self.opts.max_len
+                } else if self.opts.max_len > 100 && depth == 1 {
+                    // bulky payloads: the first big container below the root takes the bulk, deeper ones stay small
+                    if self.bulk_spent { self.rng.below(3) } else { self.bulk_spent = true; self.opts.max_len }
+                } else if self.opts.max_len > 100 {
+                    self.rng.below(3)
+                } else {
+                    self.rng.below(self.opts.max_len + 1)
+                };
                 Ov::Seq((0..n).map(|_| self.payload(t, depth + 1)).collect())
             }
             Ty::Array(t, n) => {
@@ -416,7 +428,7 @@ impl<'a> Gen<'a> {
                 Ov::Seq(v)
             }
             Ty::Map(k, t) => {
-                let n = if deep { 0 } else { self.rng.below(self.opts.max_len + 1) };
+                let n = if deep { 0 } else if self.opts.max_len > 100 { if depth <= 1 && !self.bulk_spent { self.bulk_spent = true; self.opts.max_len.min(200) } else { self.rng.below(3) } } else { self.rng.below(self.opts.max_len + 1) };
                 let mut m: Vec<(String, Ov)> = vec![];
                 for _ in 0..n {
                     let taken: Vec<String> = m.iter().map(|x| x.0.clone()).collect();
